@@ -133,7 +133,7 @@ class ListTree:
                                 bool(node.children))
             children: list[tuple[_TreeNode, str]] = []
             for child in node.children.values():
-                if name:
+                if node.parent is not None:
                     child_name = self._delimiter.join((name, child.name))
                 else:
                     child_name = child.name
